@@ -4,6 +4,7 @@ CONSTANTS
   Keys <- Keys3
   Full = TRUE
   MaxSteps = 1000
+  Subs <- SubsAll
   MaxNote = 1000
   Fix <- NoFix
 INVARIANTS Done
